@@ -6,13 +6,13 @@ import Httoop.Gen.Tables
   C11 — URI normalisation is idempotent, removes all dot segments and slash runs; equality.
 
   Proved here for *every* path text (no bound on length or segment count):
-    * `abspath_clean`   : the result has no `.`/`..` segment and no run of slashes
-    * `abspath_idem`    : `abspath (abspath p) = abspath p`
+    * `abspathCore_clean`   : the result has no `.`/`..` segment and no run of slashes
+    * `abspathCore_idem`    : `abspathCore (abspathCore p) = abspathCore p`
     * `normalize_idem`  : `normalize (normalize u) = normalize u` for every URI value
     * `normalize_lower` : scheme and host are lower case afterwards
     * `eq_*`            : URI equality is an equivalence on URIs with a scheme and is equality of
                           the normalised eight-tuples
-  NOT proved (stated in DESIGN.md as open): `abspath p = removeDotSegments (collapse p)` as a theorem;
+  NOT proved (stated in DESIGN.md as open): `abspathCore p = removeDotSegments (collapse p)` as a theorem;
   the RFC function is transcribed in `Spec/Rfc3986.lean` and compared with the model and with the
   code on the exhaustive path enumeration by the correspondence check instead.
 -/
@@ -25,9 +25,9 @@ theorem noDbl_slash : NoDbl [0x2F] := by
   simp at this
   omega
 
-/-- Whatever the input, a non-empty result of `abspath` is in normal form. -/
-theorem abspath_normal (p : Bytes) (hq : collapse p ≠ []) :
-    NoDbl (abspath p) ∧ abspath p ≠ [] ∧ NoDots (splitOn1 0x2F (abspath p)) := by
+/-- Whatever the input, a non-empty result of `abspathCore` is in normal form. -/
+theorem abspathCore_normal (p : Bytes) (hq : collapse p ≠ []) :
+    NoDbl (abspathCore p) ∧ abspathCore p ≠ [] ∧ NoDots (splitOn1 0x2F (abspathCore p)) := by
   have hq' : (collapse p).isEmpty = false := by cases h : collapse p <;> simp_all
   have hparts := interiorNE_split (collapse p) (collapse_noDbl p)
   have hclean : ∀ s ∈ abspathSegs (splitOn1 0x2F (collapse p)), Clean 0x2F s := by
@@ -35,7 +35,7 @@ theorem abspath_normal (p : Bytes) (hq : collapse p ≠ []) :
     rcases abspathSegs_subset _ s hs with h | h
     · exact mem_split_clean _ _ s h
     · subst h; exact Clean.nil _
-  unfold abspath
+  unfold abspathCore
   simp only [hq', Bool.false_eq_true, if_false]
   by_cases hj : (joinWith [0x2F] (abspathSegs (splitOn1 0x2F (collapse p)))).isEmpty = true
   · simp only [hj, if_true]
@@ -48,30 +48,30 @@ theorem abspath_normal (p : Bytes) (hq : collapse p ≠ []) :
     · rw [splitOn1_join _ _ hclean hne]; exact abspathSegs_nodots _
 
 /-- A non-empty path without slash runs and dot segments is a fixed point. -/
-theorem abspath_fixed (x : Bytes) (h1 : NoDbl x) (h2 : x ≠ []) (h3 : NoDots (splitOn1 0x2F x)) :
-    abspath x = x := by
+theorem abspathCore_fixed (x : Bytes) (h1 : NoDbl x) (h2 : x ≠ []) (h3 : NoDots (splitOn1 0x2F x)) :
+    abspathCore x = x := by
   have hx : x.isEmpty = false := by cases x <;> simp_all
-  unfold abspath
+  unfold abspathCore
   rw [collapse_of_noDbl x h1]
   simp only [hx, Bool.false_eq_true, if_false]
   rw [abspathSegs_fix _ h3 (splitOn1_ne_nil _ _), join_split]
   simp [hx]
 
-theorem abspath_idem (p : Bytes) : abspath (abspath p) = abspath p := by
+theorem abspathCore_idem (p : Bytes) : abspathCore (abspathCore p) = abspathCore p := by
   by_cases hq : collapse p = []
-  · have : abspath p = p := by simp [abspath, hq]
+  · have : abspathCore p = p := by simp [abspathCore, hq]
     rw [this, this]
-  · obtain ⟨h1, h2, h3⟩ := abspath_normal p hq
-    exact abspath_fixed _ h1 h2 h3
+  · obtain ⟨h1, h2, h3⟩ := abspathCore_normal p hq
+    exact abspathCore_fixed _ h1 h2 h3
 
 /-- "afterwards its path contains no '.' or '..' segment and no run of slashes" -/
-theorem abspath_clean (p : Bytes) (hp : p ≠ []) :
-    NoDbl (abspath p) ∧ ∀ s ∈ splitOn1 0x2F (abspath p), s ≠ dot ∧ s ≠ dotdot := by
+theorem abspathCore_clean (p : Bytes) (hp : p ≠ []) :
+    NoDbl (abspathCore p) ∧ ∀ s ∈ splitOn1 0x2F (abspathCore p), s ≠ dot ∧ s ≠ dotdot := by
   have hq : collapse p ≠ [] := by
     cases p with
     | nil => exact absurd rfl hp
     | cons a r => obtain ⟨t, e⟩ := collapse_head a r; rw [e]; simp
-  obtain ⟨h1, _, h3⟩ := abspath_normal p hq
+  obtain ⟨h1, _, h3⟩ := abspathCore_normal p hq
   refine ⟨h1, fun s hs => ?_⟩
   have := h3 s hs
   simp only [isDotSeg, Bool.or_eq_false_iff, beq_eq_false_iff_ne] at this
@@ -86,16 +86,11 @@ theorem lowerBytes_idem (s : Bytes) : lowerBytes (lowerBytes s) = lowerBytes s :
 theorem lowerBytes_isEmpty (s : Bytes) : (lowerBytes s).isEmpty = s.isEmpty := by
   cases s <;> simp [lowerBytes]
 
-/-- the path part of `normalize` -/
-def normPath (u : Uri) (p : Bytes) : Bytes :=
-  let q := abspath p
-  if !startsWith q [0x2F] && !u.host.isEmpty && !u.scheme.isEmpty && !q.isEmpty then 0x2F :: q else q
-
 theorem startsWith_slash_cons (q : Bytes) : startsWith (0x2F :: q) [0x2F] = true := by simp [startsWith]
 
-theorem abspath_slash_cons (q : Bytes) (h1 : NoDbl q) (h2 : q ≠ []) (h3 : NoDots (splitOn1 0x2F q))
-    (h4 : startsWith q [0x2F] = false) : abspath (0x2F :: q) = 0x2F :: q := by
-  apply abspath_fixed
+theorem abspathCore_slash_cons (q : Bytes) (h1 : NoDbl q) (h2 : q ≠ []) (h3 : NoDots (splitOn1 0x2F q))
+    (h4 : startsWith q [0x2F] = false) : abspathCore (0x2F :: q) = 0x2F :: q := by
+  apply abspathCore_fixed
   · intro ⟨u, v, e⟩
     cases u with
     | nil =>
@@ -110,16 +105,92 @@ theorem abspath_slash_cons (q : Bytes) (h1 : NoDbl q) (h2 : q ≠ []) (h3 : NoDo
     · subst h; decide
     · exact h3 s h
 
+
+/-! ### `abspath`: the segment loop with the root of an absolute path restored -/
+
+theorem noDbl_slash_cons (q : Bytes) (h1 : NoDbl q) (h4 : startsWith q [0x2F] = false) : NoDbl (0x2F :: q) := by
+  intro ⟨u, v, e⟩
+  cases u with
+  | nil =>
+    simp at e
+    rw [e] at h4
+    simp [startsWith] at h4
+  | cons a u => simp at e; exact h1 ⟨u, v, by simpa using e.2⟩
+
+theorem abspath_normal (p : Bytes) (hq : collapse p ≠ []) :
+    NoDbl (abspath p) ∧ abspath p ≠ [] ∧ NoDots (splitOn1 0x2F (abspath p)) := by
+  obtain ⟨h1, h2, h3⟩ := abspathCore_normal p hq
+  unfold abspath
+  simp only []
+  by_cases hc : (startsWith p [0x2F] && !startsWith (abspathCore p) [0x2F]) = true
+  · simp only [hc, if_true]
+    have h4 : startsWith (abspathCore p) [0x2F] = false := by
+      simp only [Bool.and_eq_true, Bool.not_eq_true'] at hc; exact hc.2
+    refine ⟨noDbl_slash_cons _ h1 h4, by simp, ?_⟩
+    intro s hs
+    simp only [splitOn1, beq_self_eq_true, if_true, List.mem_cons] at hs
+    rcases hs with h | h
+    · subst h; decide
+    · exact h3 s h
+  · simp only [hc, Bool.false_eq_true, if_false]
+    exact ⟨h1, h2, h3⟩
+
+theorem abspath_fixed (x : Bytes) (h1 : NoDbl x) (h2 : x ≠ []) (h3 : NoDots (splitOn1 0x2F x)) : abspath x = x := by
+  unfold abspath
+  simp only [abspathCore_fixed x h1 h2 h3]
+  cases startsWith x [0x2F] <;> simp
+
+/-- **`abspath` is idempotent** -/
+theorem abspath_idem (p : Bytes) : abspath (abspath p) = abspath p := by
+  by_cases hq : collapse p = []
+  · have hp : p = [] := by
+      cases p with
+      | nil => rfl
+      | cons a r => obtain ⟨t, e⟩ := collapse_head a r; rw [e] at hq; cases hq
+    subst hp
+    decide
+  · obtain ⟨h1, h2, h3⟩ := abspath_normal p hq
+    exact abspath_fixed _ h1 h2 h3
+
+/-- **no dot segment and no slash run is left** -/
+theorem abspath_clean (p : Bytes) (hp : p ≠ []) :
+    NoDbl (abspath p) ∧ ∀ s ∈ splitOn1 0x2F (abspath p), s ≠ dot ∧ s ≠ dotdot := by
+  have hq : collapse p ≠ [] := by
+    cases p with
+    | nil => exact absurd rfl hp
+    | cons a r => obtain ⟨t, e⟩ := collapse_head a r; rw [e]; simp
+  obtain ⟨h1, _, h3⟩ := abspath_normal p hq
+  refine ⟨h1, fun s hs => ?_⟩
+  have := h3 s hs
+  simp only [isDotSeg, Bool.or_eq_false_iff, beq_eq_false_iff_ne] at this
+  exact this
+
+theorem abspath_slash_cons (q : Bytes) (h1 : NoDbl q) (h2 : q ≠ []) (h3 : NoDots (splitOn1 0x2F q))
+    (h4 : startsWith q [0x2F] = false) : abspath (0x2F :: q) = 0x2F :: q := by
+  unfold abspath
+  simp [abspathCore_slash_cons q h1 h2 h3 h4, startsWith]
+
+/-- an absolute path stays absolute -/
+theorem abspath_rooted (p : Bytes) (h : startsWith p [0x2F] = true) : startsWith (abspath p) [0x2F] = true := by
+  unfold abspath
+  simp only [h, Bool.true_and]
+  cases hq : startsWith (abspathCore p) [0x2F] <;> simp [startsWith, hq]
+
+/-- the path part of `normalize` -/
+def normPath (u : Uri) (p : Bytes) : Bytes :=
+  let q := abspath p
+  if !startsWith q [0x2F] && !u.host.isEmpty && !u.scheme.isEmpty && !q.isEmpty then 0x2F :: q else q
+
 theorem normPath_idem (u : Uri) (p : Bytes) : normPath u (normPath u p) = normPath u p := by
   unfold normPath
   by_cases hq : collapse p = []
-  · have hp : abspath p = p := by simp [abspath, hq]
-    have : p = [] := by
+  · have : p = [] := by
       cases p with
       | nil => rfl
       | cons a r => obtain ⟨t, e⟩ := collapse_head a r; rw [e] at hq; cases hq
     subst this
-    simp [abspath, collapse, startsWith]
+    have h0 : abspath [] = [] := by decide
+    simp [h0, startsWith]
   · obtain ⟨h1, h2, h3⟩ := abspath_normal p hq
     simp only []
     by_cases hc : (!startsWith (abspath p) [0x2F] && !u.host.isEmpty && !u.scheme.isEmpty && !(abspath p).isEmpty) = true
@@ -204,16 +275,28 @@ example : abspath "/a/b/../c/./d//e/..".toUTF8.toList = Rfc3986.removeDotSegment
 
 /-! ### equal to RFC 3986 §5.2.4 -/
 
-/-- **the RFC clause of C11**: for a URI with scheme and host whose path begins with a slash, the path that
-    `normalize()` leaves is `remove_dot_segments` (RFC 3986 §5.2.4, transcribed from the RFC text in
-    `Spec/Rfc3986.lean`) of the path with its slash runs collapsed — for every path, of any length. -/
-theorem normalize_path_rfc (E : Env) (u : Uri) (hs : u.scheme ≠ []) (hh : u.host ≠ [])
-    (hp : startsWith u.path [0x2F] = true) :
+theorem abspath_eq_normFix (p : Bytes) (h : startsWith p [0x2F] = true) : abspath p = normFix (abspathCore p) := by
+  have hq : collapse p ≠ [] := by
+    cases p with
+    | nil => simp [startsWith] at h
+    | cons a r => obtain ⟨t, e⟩ := collapse_head a r; rw [e]; simp
+  obtain ⟨_, h2, _⟩ := abspathCore_normal p hq
+  have h2' : (abspathCore p).isEmpty = false := by simpa using h2
+  unfold abspath normFix
+  simp [h, h2']
+
+/-- **the RFC clause of C11 for `abspath()` itself**: for every path that begins with a slash, what `abspath()` leaves
+    is RFC 3986 §5.2.4 `remove_dot_segments` (transcribed from the RFC text in `Spec/Rfc3986.lean`) applied to the path
+    with its slash runs collapsed — for every path, of any length -/
+theorem abspath_eq_rfc (p : Bytes) (h : startsWith p [0x2F] = true) : abspath p = Rfc3986.removeDotSegments (collapse p) := by
+  rw [abspath_eq_normFix p h]; exact abspathCore_eq_rfc p h
+
+/-- **the RFC clause of C11**: for a URI whose path begins with a slash, the path that `normalize()` leaves is
+    `remove_dot_segments` of the path with its slash runs collapsed (since the F60 repair also without scheme and host) -/
+theorem normalize_path_rfc (E : Env) (u : Uri) (hp : startsWith u.path [0x2F] = true) :
     (normalize E u).path = Rfc3986.removeDotSegments (collapse u.path) := by
   rw [← abspath_eq_rfc u.path hp]
-  unfold normalize normFix
-  have e1 : (lowerBytes u.scheme).isEmpty = false := by rw [lowerBytes_isEmpty]; simpa using hs
-  have e2 : (lowerBytes u.host).isEmpty = false := by rw [lowerBytes_isEmpty]; simpa using hh
-  simp only [e1, e2, Bool.not_false, Bool.and_true]
+  unfold normalize
+  simp only [abspath_rooted u.path hp, Bool.not_true, Bool.false_and, Bool.false_eq_true, if_false]
 
 end Httoop.Uri
